@@ -240,14 +240,15 @@ def check(col: Collector, tier: str):
     fname = const_str(rep[0].args[0]) if rep else None
     col.add("C03.R6", f.short, "descriptor-file-name-is-a-literal", fname is not None, f"file name {fname!r}", f.loc)
     base = (fname or "").rsplit(".", 1)[0]
-    at = (REPO / "func_adl_xAOD/template/atlas/r21/runner.sh").read_text()
+    from sa.core.shell_alpha import runner_source
+    at = runner_source(REPO / "func_adl_xAOD/template/atlas/r21/runner.sh")
     col.add("C03.R6", "runner:atlas/r21", "delivers-the-descriptor's-file", f"./bogus/data-{base}/{fname} $destination" in at,
             f"the ATLAS runner must deliver data-{base}/{fname}", "func_adl_xAOD/template/atlas/r21/runner.sh")
     el = (REPO / "func_adl_xAOD/template/atlas/r21/ATestRun_eljob.py").read_text()
     col.add("C03.R6", "template:ATestRun_eljob.py", "output-stream-and-sample-name", f"OutputStream('{base}')" in el and f'readFileList(sh, "{base}"' in el,
             f"EventLoop writes data-<sample>/<stream>.root: both must be {base!r}", "func_adl_xAOD/template/atlas/r21/ATestRun_eljob.py")
     for r in ("r5", "r7"):
-        ct = (REPO / f"func_adl_xAOD/template/cms/{r}/runner.sh").read_text()
+        ct = runner_source(REPO / f"func_adl_xAOD/template/cms/{r}/runner.sh")
         cfg = (REPO / f"func_adl_xAOD/template/cms/{r}/analyzer_cfg.py").read_text()
         ok = f"CMS_OUTPUT_FILE={fname}" in ct and f"destination=$output_dir/{fname}" in ct and 'os.environ["CMS_OUTPUT_FILE"]' in cfg \
             and "fileName=cms.string(output_file)" in cfg
